@@ -101,7 +101,21 @@ def step (d : PD) (line : String) : PD × String :=
             else if calls == 0 && !unchanged then some s!"C04 answer-from-idempotency-cache-changed-the-queue"
             else if status != 204 && !(after.all fun m => before.any fun b => b == m || (b.id == m.id && b.st == .leased && m.st == .queued)) then
               some s!"C04 refused-{key}-changed-the-queue"
-            else none
+            else
+              -- C05: after a nack with delay d the message is offered from now + d, never earlier
+              match op with
+              | .nackSingle _ dead _ delay =>
+                if status == 204 && calls > 0 && !dead then
+                  match before.find? (fun m => m.st == .leased && m.lease == l) with
+                  | some b =>
+                    match after.find? (fun m => m.id == b.id) with
+                    | some m => if m.st == .queued && m.next < now + max delay 0 then
+                        some s!"C05 nacked-message-visible-earlier-than-its-delay id={m.id} delay={delay} next-now={m.next - now}"
+                      else none
+                    | none => none
+                  | none => none
+                else none
+              | _ => none
           | .extend l0 by_ =>
             let l := trimWS l0
             if status == 204 && by_ > 0 && !heldLive before now l then some s!"C04 extend-succeeded-on-a-lease-that-is-not-current lease={l.quote}"
